@@ -61,7 +61,7 @@ GROUPS = {
     'heap': ['gc', 'vcell', 'heap'],
     'stack': ['vcell', 'stack'],
     'cont': ['vcell', 'stack', 'vm_struct', 'continuation', 'builtin_mod', 'builtin_procedure'],
-    'builtins': ['vcell', 'stack', 'vm_struct', 'builtin_mod', 'builtin_vector'],
+    'builtins': ['vcell', 'stack', 'vm_struct', 'builtin_mod', 'builtin_vector', 'builtin_list'],
     'numbuiltins': ['number', 'vcell', 'stack', 'vm_struct', 'builtin_mod', 'builtin_mod_num', 'builtin_number'],
 }
 
@@ -118,7 +118,8 @@ PROPS = {
                 {'harness': 'vcell_accessors', 'file': 'src/vm/vcell.rs', 'kind': 'complete', 'timeout': 600, 'what': 'VCell::as_ptr/as_argc/as_car/as_cdr/as_bp/is_pair answer Ok(payload) exactly on the matching variant (their contracts are assumed on the Verus side)'},
             ],
             'assumptions': [
-                'scope: the vector procedures vector, vector-length, vector-ref, vector-set!, vector-fill!, vector-copy (start index), vector-copy!; pairs/lists, equal?, and the library procedures written in Scheme are NOT under contract',
+                'scope: the vector procedures vector, vector-length, vector-ref, vector-set!, vector-fill!, list->vector, vector-copy (start index), vector-copy! and the pair/list procedures cons, car, cdr, set-car!, set-cdr!, list-ref, list-tail; append, reverse, vector->list, make-vector, equal?, and the library procedures written in Scheme (length, map, memq, assq, ...) are NOT under contract',
+                'in this group the heap is opaque: Heap::get / put / get_at_index_mut carry assumed contracts over heap_deref / heap_live (what a pointer designates, which cells are allocated); the put contract restates what unit heap proves about the real body',
                 'stores into the interior-mutable Vector are tracked as events: vector_written(v, i, x) can only be established by Vector::put(i, x); "no other slot is written" (frame) is not expressible and not decided; overlapping vector-copy! on one vector is not decided',
                 'Vector::put carries the precondition index < length, so its silently-ignore branch is proved dead at every call site',
                 'the typed poppers pop_argc / pop_number / pop_index / pop_vector are verified (not assumed) against Heap::get (assumed: heap_deref), Number::to_usize (assumed) and the Display specs of Cell / Number used in their error text',
